@@ -13,7 +13,7 @@ int verif_exc; C14_GHOSTS
 #endif
 #define IN_GHOSTS size_t in_src_len, in_pos, in_vk, in_wpos; uint8_t in_sval, in_wval; SMALL; \
   g_src_len = in_src_len; g_pos = in_pos; g_vk = in_vk; g_wpos = in_wpos; g_sval = in_sval; g_wval = in_wval; \
-  g_eof_seen = 0; g_err_seen = 0; g_chunk = 0; verif_exc = 0
+  g_eof_seen = 0; g_err_seen = 0; g_chunk = 0; g_stream_fd_taken = 0; verif_exc = 0
 
 void h_readx(void) { IN_GHOSTS; int in_fd; void* d; size_t in_size; SMALL_SIZE(in_size); phosg_readx(in_fd, d, in_size); VERIF_REACH(); }
 void h_readx_str(void) { IN_GHOSTS; int in_fd; vstr* r; size_t in_size; SMALL_SIZE(in_size); phosg_readx_str(r, in_fd, in_size); VERIF_REACH(); }
